@@ -313,13 +313,21 @@ func VerifHarness_C06_ShardOps() {
 	nShards := vLen("shards", 1, 2)
 	for i := 0; i < nShards; i++ {
 		sh := ShardInfo{ID: uint64(i + 1)}
-		switch vChoice("ownerSet", 4) {
+		// owner lists as the mutators leave them: ascending, or wrapped around by the round-robin
+		// assignment of CreateShardGroup / appended by DeleteDataNode's reassignment
+		switch vChoice("ownerSet", 7) {
 		case 0:
 			sh.Owners = []ShardOwner{{NodeID: 1}}
 		case 1:
 			sh.Owners = []ShardOwner{{NodeID: 3}}
 		case 2:
 			sh.Owners = []ShardOwner{{NodeID: 1}, {NodeID: 3}}
+		case 4:
+			sh.Owners = []ShardOwner{{NodeID: 3}, {NodeID: 1}}
+		case 5:
+			sh.Owners = []ShardOwner{{NodeID: 2}, {NodeID: 3}, {NodeID: 1}}
+		case 6:
+			sh.Owners = []ShardOwner{{NodeID: 3}, {NodeID: 2}}
 		default:
 			sh.Owners = []ShardOwner{{NodeID: 1}, {NodeID: 2}, {NodeID: 3}}
 		}
